@@ -49,6 +49,7 @@ type c11Gen struct {
 	methods   []*c11Method
 	names     []c11Scope // Name objects (path, table) usable as references
 	regions   []c11Scope
+	units     []c11Scope // field units (index / data / bank registers of later IndexField / BankField)
 	table     int
 	budget    int
 	maxDepth  int
@@ -325,20 +326,46 @@ func (g *c11Gen) declared(cur, p []string, off bool) {
 	}
 }
 
-// Field over a region that the search rule finds from cur
+// Field / IndexField / BankField over a region and registers that the search rule finds from cur
 func (g *c11Gen) field(cur []string, late bool) *c11Node {
-	var vis []c11Scope
-	for _, r := range g.regions {
-		if c11HasPrefix(cur, r.path[:len(r.path)-1]) {
-			vis = append(vis, r)
+	visible := func(all []c11Scope) []c11Scope {
+		var vis []c11Scope
+		for _, r := range all {
+			if c11HasPrefix(cur, r.path[:len(r.path)-1]) {
+				vis = append(vis, r)
+			}
 		}
+		return vis
 	}
-	if len(vis) == 0 {
-		return nil
+	pick := func(vis []c11Scope) c11Scope { return vis[len(vis)-1-g.rng.Intn(c11Min(len(vis), 4))] }
+	one := func(s c11Scope) *c11Form { return &c11Form{Segs: []string{s.path[len(s.path)-1]}} }
+	regs, units := visible(g.regions), visible(g.units)
+	t := c11Tok{K: "field", Kind: "Field", W: g.width(), Flags: g.rng.Intn(6) | g.rng.Intn(2)<<4 | g.rng.Intn(3)<<5}
+	switch k := g.rng.Intn(10); {
+	case k < 2 && len(units) >= 2:
+		i, d := pick(units), pick(units)
+		if c11Key(i.path) == c11Key(d.path) {
+			d = units[0]
+			if c11Key(i.path) == c11Key(d.path) {
+				d = units[1]
+			}
+		}
+		t.Kind, t.F, t.G = "IndexField", one(i), one(d)
+	case k < 4 && len(units) >= 1 && len(regs) >= 1:
+		v := c11Term{T: "byte", N: []int{g.rng.Intn(256)}}
+		switch g.rng.Intn(3) {
+		case 0:
+			v = c11Term{T: "word", N: []int{g.rng.Intn(65536)}}
+		case 1:
+			v = c11Term{T: "dword", N: []int{g.rng.Intn(65536), g.rng.Intn(65536)}}
+		}
+		t.Kind, t.F, t.G, t.V = "BankField", one(pick(regs)), one(pick(units)), []c11Term{v}
+	default:
+		if len(regs) == 0 {
+			return nil
+		}
+		t.F = one(pick(regs))
 	}
-	r := vis[len(vis)-1-g.rng.Intn(c11Min(len(vis), 3))]
-	t := c11Tok{K: "field", F: &c11Form{Segs: []string{r.path[len(r.path)-1]}}, W: g.width(),
-		Flags: g.rng.Intn(6) | g.rng.Intn(2)<<4 | g.rng.Intn(3)<<5}
 	for i, n := 0, g.rng.Intn(6); i < n; i++ {
 		bits := []int{1, 3, 8, 16, 32, 63, 64, 100, 4095, 4096, 70000}[g.rng.Intn(11)]
 		switch g.rng.Intn(6) {
@@ -347,7 +374,9 @@ func (g *c11Gen) field(cur []string, late bool) *c11Node {
 		case 1:
 			t.Els = append(t.Els, c11El{E: "access", At: g.rng.Intn(6), Aa: g.rng.Intn(16)})
 		default:
-			t.Els = append(t.Els, c11El{E: "unit", Name: g.fresh(), Bits: bits, Wl: g.width()})
+			nm := g.fresh()
+			t.Els = append(t.Els, c11El{E: "unit", Name: nm, Bits: bits, Wl: g.width()})
+			g.units = append(g.units, c11Scope{path: c11Cat(cur, nm), table: g.table})
 		}
 	}
 	return &c11Node{tok: t}
